@@ -161,6 +161,9 @@ func (c *vCluster) advMessage(kind int, name string) (raw *interfaces.ConsensusR
 //   2: as 1, then one correct node (the highest index) also received the COMMITs of the others plus a
 //      genuine COMMIT of the Byzantine member and committed A; the others did not commit
 //   3 (Byzantine first leader only): equivocation X / Y in view 0 with the Y side committed (see below)
+//   4 (Byzantine first leader only): deep prefix, see below
+//   5 (Byzantine member 2): as 2, then a complete view change to view 1 whose proposal is adopted but not
+//      prepared, then a second round of timeouts into view 2, which the Byzantine member leads
 func (c *vCluster) prefix(p int, timeouts int) {
 	thenTimeout := timeouts >= 1
 	if c.byz == 0 && p == 3 {
@@ -235,6 +238,9 @@ func (c *vCluster) prefix(p int, timeouts int) {
 		_, isC := m.(*interfaces.CommitMessage)
 		return !isC
 	}
+	if p == 5 {
+		env.Assert("C01.prefix5.needs_byz_2", c.byz == 2)
+	}
 	if p >= 1 {
 		// the Byzantine member also PREPAREs honestly (it wants the others locked)
 		c.flush(noCommits)
@@ -265,6 +271,33 @@ func (c *vCluster) prefix(p int, timeouts int) {
 			}
 		}
 		c.nodes[x].deliver(c.wd.net.cm(c.byz, 1, 0, hash).ToConsensusRawMessage())
+	}
+	if p == 5 {
+		// the first view change completes: the uncommitted nodes time out, the Byzantine member adds its genuine
+		// proof-less vote, the correct leader of view 1 is elected and re-proposes the locked block in its NEW_VIEW,
+		// the other uncommitted node adopts it and PREPAREs; no quorum forms in view 1 (the Byzantine member stays
+		// silent), so both time out again, into view 2
+		// the node that committed has moved on to the next height: nothing of this height reaches it any more
+		lagging := func(from, to int, m interfaces.ConsensusMessage) bool {
+			_, isC := m.(*interfaces.CommitMessage)
+			return !isC && len(c.nodes[to].commits) == 0
+		}
+		for _, i := range c.correct() {
+			if len(c.nodes[i].commits) == 0 {
+				c.nodes[i].timeout()
+			}
+		}
+		c.flush(lagging)
+		c.nodes[1].deliver(c.wd.net.vcm(c.byz, 1, 1, nil).ToConsensusRawMessage())
+		c.flush(lagging)
+		env.Assert("C01.prefix5.new_view_adopted", c.nodes[0].m.state.View() == 1 && c.nodes[1].m.state.View() == 1)
+		for _, i := range c.correct() {
+			if len(c.nodes[i].commits) == 0 {
+				c.nodes[i].timeout()
+			}
+		}
+		c.flush(lagging)
+		return
 	}
 	if thenTimeout {
 		for _, i := range c.correct() {
@@ -359,6 +392,28 @@ func C01_Run() {
 		}
 		c.flush(nil)
 		c.checkAgreement()
+		if env.ParamOr("byzfollow", 0) == 1 {
+			// listed concrete Byzantine action: it goes along with whatever the correct nodes PREPAREd last
+			// (genuine PREPARE and COMMIT for that view and hash to every correct node)
+			for _, j := range cs {
+				var last *interfaces.PrepareMessage
+				for _, sm := range c.nodes[j].comm.Out {
+					if pm, ok := sm.Msg.(*interfaces.PrepareMessage); ok {
+						last = pm
+					}
+				}
+				if last == nil {
+					continue
+				}
+				h := last.Content().SignedHeader().BlockHash()
+				for _, k := range cs {
+					c.nodes[k].deliver(c.wd.net.pm(c.byz, 1, last.View(), h).ToConsensusRawMessage())
+					c.nodes[k].deliver(c.wd.net.cm(c.byz, 1, last.View(), h).ToConsensusRawMessage())
+				}
+			}
+			c.flush(nil)
+			c.checkAgreement()
+		}
 	}
 	ncommitted := 0
 	for _, j := range cs {
